@@ -109,10 +109,10 @@ class SObj:
 
 class SFunc:
     """A repository function value (possibly bound)."""
-    __slots__ = ("finfo", "self_val", "closure")
+    __slots__ = ("finfo", "self_val", "closure", "static")
 
     def __init__(self, finfo, self_val=None, closure=None):
-        self.finfo, self.self_val, self.closure = finfo, self_val, closure
+        self.finfo, self.self_val, self.closure, self.static = finfo, self_val, closure, False
 
 
 class SClass:
